@@ -139,7 +139,12 @@ def load_registered_codemods(ep_filter: Optional[Callable[[EntryPoint], bool]] =
     registry = CodemodRegistry()
     logger.debug("loading registered codemod collections")
 
-    for entry_point in set(entry_points().select(group="codemods")):
+    # A set has no stable order (it depends on the hash seed): sort so that the
+    # registry order, and with it the default execution order, is reproducible
+    for entry_point in sorted(
+        set(entry_points().select(group="codemods")),
+        key=lambda ep: (ep.name, ep.value),
+    ):
         if ep_filter and not ep_filter(entry_point):
             logger.debug(
                 '- skipping codemod collection "%s" from "%s as requested"',
